@@ -299,7 +299,9 @@ func areaStrategy(r *Rng, n int, dir string) (*AreaOut, error) {
 	// transaction, then enough inserts in front of a pending stored key to split that page, then decisions that
 	// depend on the stored value of that key and of the keys after it
 	for rep := 0; rep < 6; rep++ {
-		big := func(tag string, n int) []byte { return append([]byte(tag+":"), bytes.Repeat([]byte{byte('A' + rep)}, n)...) }
+		big := func(tag string, n int) []byte {
+			return append([]byte(tag+":"), bytes.Repeat([]byte{byte('A' + rep)}, n)...)
+		}
 		var stored []pair
 		for j := 0; j < 4+rep; j++ {
 			stored = append(stored, pair{[]byte(fmt.Sprintf("a%02d", j)), big("s", 60+7*j)})
